@@ -112,6 +112,8 @@ _n = Stream('notify', 'h_layers', gen=gen_notify, nontrivial=nontrivial_notify, 
 _n.spec_match = lambda spec, impl: spec == 'no-spec' or spec == impl
 _p = Stream('pair', 'h_layers', gen=gen_pair, nontrivial=lambda case, out: ':' in case.split(' ;; ')[1] and out.count(':event') + out.count(':new_span') >= 2)
 _p.py_judge = judge_pair
+# the model speaks about notification kinds; the payloads (span ids, callsites) logged in pair mode are for the judge
+_p.canon = lambda s: re.sub(r'\[[^\]]*\]', '', s)
 _w = Stream('wrapped', 'h_layers', mode='modelfilt', gen=gen_wrapped, nontrivial=nontrivial_wrapped, spec_mode='specfilt')
 
 PROPERTY = {
